@@ -162,4 +162,10 @@ def c01(prop, tier, res, replay=None):
         "a process kill leaves the OS page cache intact: this shows atomicity and ordering of commits against process death, not fsync durability on power loss (SQLite's and the OS's, trusted); concurrent requests inside the child are not generated (the store serialises transactions on one connection); PostgreSQL and memory backends are out of scope of a restart on the same database"], replay)
 
 
+LEASECONC = dict(sub="leaseconc", mode="leaseconc", family="leaseconc", shards=q(2, 8),
+                 args=lambda tier, sd, sh: ["-seed", sd * 1000 + sh, "-runs", 6 if tier == "quick" else 24, "-workers", 8 if tier == "quick" else 16,
+                                            "-millis", 400 if tier == "quick" else 1200, "-msgs", 60 if tier == "quick" else 150],
+                 key_fields=["k", "run", "backend"])
+
+
 TABLE = {"C18": c18, "C01": c01, "C19": c19, "C15": c15, "C07": c07, "C20": c20, "C11": c11, "C06": c06, "C16": c16, "C10": c10, "C08": c08, "C09": c09, "C17": c17}
